@@ -3,7 +3,10 @@
 Decided by the theorems of lean-sched/XrlSched/Props/C17.lean (schedule model + footprint table + MT-safety
 table); tied to the real library by harness/c17_threads.c under ThreadSanitizer: 8–16 threads, seeded mixes of
 every thread-safe entry point, per-thread results compared with a serial run of the same scripts; any TSan report
-contradicts the model's `race_free`.  The setlocale search of DESIGN §3 C17 is run as a separate experiment."""
+contradicts the model's `race_free`.  The setlocale search of DESIGN §3 C17 is run as a separate experiment.
+Rounds run on the tables as shipped AND on the regenerated Kissel configuration (where the Kissel / cascade family succeeds);
+every thread also READS one user crystal array shared by all threads (promised safe); a canary round (two threads inserting
+into the built-in array without a lock: documented as unsafe) must make ThreadSanitizer speak, else the detector is not live."""
 import os, sys, re, json, time, subprocess, random
 HERE = os.path.dirname(os.path.abspath(__file__))
 sys.path.insert(0, os.path.join(os.path.dirname(HERE), 'tools'))
@@ -16,12 +19,61 @@ NAMESPACE = 'XrlSched.C17'
 PROPS = os.path.join(sl.LEAN_DIR, 'XrlSched', 'Props', 'C17.lean')
 PROPS16 = os.path.join(sl.LEAN_DIR, 'XrlSched', 'Props', 'C16.lean')
 KEY_LOCALE = 'CompoundParser:setlocale(LC_NUMERIC) tsan:free-vs-app-read'
-NONVACUITY = ['exConfig', 'glibcExtC', 'exConfig_conf']
+NONVACUITY = ['exConfig', 'glibcExtC', 'exConfig_conf', 'exSharedReaders', 'exSharedReaders_conf', 'exSharedWriter']
 TSAN_ENV = dict(TSAN_OPTIONS='halt_on_error=0 exitcode=66 report_signal_unsafe=0 second_deadlock_stack=1')
-EXCLUDED_OPS = ('AddBuiltin',)        # mutation of the shared built-in crystal array needs external locking, as documented
+EXCLUDED_OPS = ('AddBuiltin', 'ReadFileBuiltin')        # mutation of the shared built-in crystal array needs external locking, as documented
+ERR_RE = re.compile(r' e:\d|:~|bad-op|unparsed|noerr')
+SHARED_READERS = ('Bragg_angle', 'Crystal_dSpacing', 'Crystal_UnitCellVolume', 'Q_scattering_amplitude', 'Crystal_F_H_StructureFactor',
+                  'Crystal_F_H_StructureFactor_Partial', 'Crystal_F_H_StructureFactor2', 'Crystal_F_H_StructureFactor_Partial2')
+
+def opname(o): return o.split(' ', 1)[0].replace('retain-', '')
 
 def tsan_reports(stderr):
-    return re.findall(r'WARNING: ThreadSanitizer: [^\n]*(?:\n(?!==================)[^\n]*){0,40}', stderr)
+    return re.findall(r'WARNING: ThreadSanitizer: [^\n]*(?:\n(?!==================)[^\n]*){0,160}', stderr)
+
+def access_blocks(rep):
+    """the stacks of a report: [(what, [(function, location), …])] for the two accesses and, for a heap location, its allocation"""
+    out = []
+    for m in re.finditer(r'^  ((?:Previous )?(?:[Aa]tomic )?(?:[Ww]rite|[Rr]ead) of size \d+|Location is heap block of size \d+|Mutex \S+)[^\n]*\n((?:    #\d+ [^\n]*\n?)+)', rep, flags=re.M):
+        out.append((m.group(1), re.findall(r'#\d+ (\S+) (\S+)', m.group(2))))
+    return out
+
+def report_class(rep):
+    """a ThreadSanitizer report -> its class: (kind, the first frame WITH a source position of either access, the location)"""
+    kind = rep.split('\n')[0].replace('WARNING: ThreadSanitizer: ', '').split(' (pid')[0]
+    tops = []
+    for what, fr in access_blocks(rep):
+        if what.startswith(('Location', 'Mutex')): continue
+        src = [f for f, loc in fr if loc.startswith('/')] or [f for f, loc in fr if not loc.startswith('<null>')]
+        tops.append('%s in %s' % (re.sub(r'^previous | of size \d+', '', what.lower()), src[0] if src else (fr[0][0] if fr else '?')))
+    loc = re.search(r"Location is (global '[^']+'|heap block|stack of \S+ thread|thread-local|file descriptor \d+)", rep)
+    return '%s: %s [%s]' % (kind, ' / '.join(sorted(tops)), loc.group(1) if loc else 'unknown location')
+
+def setlocale_lines(repo):
+    try: src = open(os.path.join(repo, 'src', 'xraylib-parser.c')).read().splitlines()
+    except OSError: return set()
+    return {i + 1 for i, l in enumerate(src) if 'setlocale' in l}
+
+def locale_report_known(rep, lines):
+    """is this report of the setlocale experiment the KNOWN race (known_findings.txt: CompoundParser's setlocale calls vs the application thread's
+    reads of the locale name, or vs the setlocale calls of another parser thread)?  Every access must be either the application thread
+    (harness: holder_thread) or lie INSIDE a setlocale call made by CompoundParser: no libxrl function between the access and that call, and the
+    call sits on a line of xraylib-parser.c that calls setlocale.  Anything else in the same run is a different race and is reported."""
+    acc = [(w, fr) for w, fr in access_blocks(rep) if not w.startswith(('Location', 'Mutex'))]
+    if len(acc) < 2: return False
+    # The application thread of the experiment touches shared memory in ONE way only: it reads the string setlocale(LC_NUMERIC, NULL) returned.
+    # A report with that read on one side is therefore about the locale name — possibly about the block after setlocale freed it under the
+    # reader and malloc handed it to somebody else (seen: `xrl_strdup(compoundString)` of another parser thread): the same defect.
+    if any(re.match(r'(?:previous )?read', w.lower()) and 'holder_thread' in [f for f, _ in fr] for w, fr in acc): return True
+    for w, fr in acc:
+        fns = [f for f, _ in fr]
+        if 'holder_thread' in fns: continue
+        if 'CompoundParser' not in fns: return False
+        i = fns.index('CompoundParser')
+        if any('/src/' in loc and 'libc' not in loc and not loc.startswith(('locale/', 'string/', 'stdlib/', 'malloc/')) for _, loc in fr[:i]): return False
+        m = re.search(r':(\d+)(?::\d+)?$', fr[i][1])
+        if not m or int(m.group(1)) not in lines: return False
+    return True
 
 def run(tier, seed, replay=None):
     ctx = sl.Ctx(ID, tier, seed)
@@ -37,17 +89,49 @@ def run(tier, seed, replay=None):
     finally:
         ctx.close()
 
-def make_script(rng, meta, nthreads, nops, only=None):
-    g = xrlops.OpGen(random.Random(rng.getrandbits(64)), meta, threads=True)
+def make_script(rng, meta, nthreads, nops, only=None, files=(), mode=None, extra=()):
+    """mode None: the whole mix; 'kissel': biased to the Kissel / cascade family with arguments valid on the regenerated table (`only` = the family,
+    `extra` = known-good calls); 'shared': every thread only READS the one shared user crystal array"""
+    g = xrlops.OpGen(random.Random(rng.getrandbits(64)), meta, threads=True, shared=True, files=files)
+    if mode == 'kissel':
+        g.Z = [26, 82, 47, 29, 56] + [g.rng.choice([0, 120, 99])]; g.E = [95.0, 30.0, 12.0] + [g.rng.uniform(1, 120) for _ in range(2)] + [g.rng.choice([0.0, -1.0, 1e4])]
     lines = []
     for t in range(nthreads):
-        if only:
+        if mode == 'kissel':
+            ops = []
+            for _ in range(nops):
+                r_ = g.rng.random()
+                ops.append(g.generic_op(g.rng.choice(only)) if r_ < 0.6 else g.rng.choice(extra) if (r_ < 0.8 and extra) else g.op())
+        elif mode == 'shared':
+            ops = []
+            for _ in range(nops):
+                r_ = g.rng.random()
+                if r_ < 0.25: ops.append('SharedGet %s %s' % (xrlops.esc(g.rng.choice(xrlops.SHARED_NAMES + ['Unobtainium'])), g.slot()))
+                elif r_ < 0.35: ops.append('SharedList %s' % g.slot())
+                else:
+                    o = g.generic_op(g.rng.choice([f for f in SHARED_READERS if f in g.generic]))
+                    ops.append(re.sub(r' [@~]\S*', lambda m: ' $' + xrlops.esc(g.rng.choice(xrlops.SHARED_NAMES)), o, count=1))
+        elif only:
             g.fresh_p = 0.05
             ops = [g.generic_op(g.rng.choice(only)) for _ in range(nops)]
         else:
-            ops = [o for o in g.ops(nops) if not o.startswith(EXCLUDED_OPS)]
-        lines += ['%d %s' % (t, o) for o in ops]
+            ops = g.ops(nops)
+        lines += ['%d %s' % (t, o) for o in ops if opname(o) not in EXCLUDED_OPS]
     return lines
+
+def header_note(repo):
+    """the clause "as documented": include/xraylib-crystal-diffraction.h must carry the note for multithreaded programs, and the functions it
+    names should exist.  -> dict(present, named, stale, current_mutators_named)"""
+    try: txt = open(os.path.join(repo, 'include', 'xraylib-crystal-diffraction.h')).read()
+    except OSError: return dict(present=False, named=[], stale=[], text='')
+    m = re.search(r'/\*\s*Note for multithreaded programs:(.*?)(?:\n \*\s*\n|\*/)', txt, flags=re.S)
+    if not m: return dict(present=False, named=[], stale=[], text='')
+    note = re.sub(r'\s*\n \* ?', ' ', m.group(1)).strip()
+    named = re.findall(r'\b(Crystal\w+)\b', note)
+    hdrs = ''.join(open(os.path.join(repo, 'include', f)).read() for f in sorted(os.listdir(os.path.join(repo, 'include'))) if f.endswith('.h'))
+    stale = [n for n in named if not re.search(r'\b%s\s*\(' % re.escape(n), hdrs)]
+    return dict(present=True, named=named, stale=stale, text=note, says_not_thread_safe=bool(re.search(r'not thread.?safe', note, flags=re.I)),
+                says_locking=bool(re.search(r'lock', note, flags=re.I)))
 
 def _run(ctx, replay):
     rep = dict(proof_broken=[], tie_broken=[], problems=[], known=[])
@@ -80,33 +164,49 @@ def _run(ctx, replay):
     uses_setlocale = ev.get(evals[0], 'unknown')
 
     exe = sl.link_harness(ctx, objs, fl, 'c17_threads.c', 'c17_threads', libs=('-lm', '-lpthread'), meta=meta)
+    files = xrlops.write_crystal_files(ctx.sc.dir)
+    good_files = [f for f in files if f in ('xv_user1.dat', 'xv_user2.dat')]
+    shared_file = 'xv_user1.dat'                      # read into the shared user array by the main thread before the threads start
+    exeR = None; fam = sl.kissel_family(meta); famg = [f for f in fam if f in xrlops.generic_functions(meta)]
+    try:
+        exeR = sl.link_harness(ctx, sl.build_c_kissel(ctx, objs, 'thread', 'tsan'), fl, 'c17_threads.c', 'c17_threadsR', libs=('-lm', '-lpthread'), meta=meta)
+    except sl.BuildError as ex:
+        rep['tie_broken'].append('regenerated-Kissel configuration could not be built (data/kissel -> kissel_pe.dat -> prdata): %s' % str(ex)[:400])
     env = {k: v for k, v in os.environ.items() if not k.startswith('LC_') and k != 'LANG'}
     env.update(TSAN_ENV)
-    stats = dict(rounds=0, calls=0, threads=[], tsan_reports=0, serial_mismatches=0, distinct_ops=0, locale_runs=0, locale_tsan=0, locale_changed=0)
-    viol = []; all_ops = set(); samples = []; ok_texts = set()
+    stats = dict(rounds=0, calls=0, threads=[], tsan_reports=0, tsan_report_classes={}, serial_mismatches=0, distinct_ops=0, locale_runs=0, locale_tsan=0, locale_changed=0,
+                 locale_reports=0, locale_reports_other=0, shared_array_rounds=0, shared_array_reads=0, kissel_rounds=0)
+    viol = []; all_ops = set(); samples = []; ok_texts = set(); ok_kissel = set()
 
     def runh(args, e, tmo=240):
         """harness process with a deadline: a corrupted heap or a deadlock in the library under test must not hang the check"""
         class R: pass
         try:
-            return subprocess.run(args, capture_output=True, text=True, env=e, errors='replace', timeout=tmo)
+            return subprocess.run(args, capture_output=True, text=True, env=e, errors='replace', timeout=tmo, cwd=ctx.sc.dir)
         except subprocess.TimeoutExpired as ex:
             r = R(); r.returncode = -9
             r.stdout = (ex.stdout.decode('latin1') if isinstance(ex.stdout, bytes) else (ex.stdout or ''))
             r.stderr = (ex.stderr.decode('latin1') if isinstance(ex.stderr, bytes) else (ex.stderr or '')) + '\n[harness killed after %d s: hang]' % tmo
             return r
 
-    def one_round(lines, sd, label):
+    def classes_of(reps):
+        cl = {}
+        for x in reps:
+            c_ = report_class(x); cl[c_] = cl.get(c_, 0) + 1
+            stats['tsan_report_classes'][c_] = stats['tsan_report_classes'].get(c_, 0) + 1
+        return cl
+
+    def one_round(lines, sd, label, exe=exe, okset=ok_texts):
         if sum(1 for v in viol if v['kind'] == 'crash') >= 2: return      # two crashed / hung rounds are evidence enough: do not wait for more deadlines
         path = ctx.sc.path('script_%d.txt' % stats['rounds'])
         with open(path, 'w') as f: f.write('\n'.join(lines) + '\n')
         e = dict(env, LC_ALL='C')
-        r = runh([exe, 'run', path, str(sd)], e)
-        s = runh([exe, 'serial', path, str(sd)], e)
+        r = runh([exe, 'run', path, str(sd), shared_file], e)
+        s = runh([exe, 'serial', path, str(sd), shared_file], e)
         if ctx.tier == 'thorough' and r.returncode == 0 and r.stdout == s.stdout:
             # the same scripts under two more schedules (other yield/spin pattern)
             for extra in (1, 2):
-                r2 = runh([exe, 'run', path, str(sd + 7919 * extra)], e)
+                r2 = runh([exe, 'run', path, str(sd + 7919 * extra), shared_file], e)
                 stats['schedules'] = stats.get('schedules', 0) + 1
                 if r2.returncode != 0 or r2.stdout != s.stdout: r = r2; break
         stats['rounds'] += 1; stats['calls'] += len(lines)
@@ -114,40 +214,50 @@ def _run(ctx, replay):
         stats['threads'].append(nt)
         for l in lines: all_ops.add(l.split(' ', 1)[1])
         reps = tsan_reports(r.stderr) + tsan_reports(s.stderr)
+        kis = exe is exeR and exeR is not None
         if r.returncode not in (0, 66) and s.returncode == 0:
             # the serial run of the same script is fine, the concurrent one crashed or hung: that is the property failing
             stats['tsan_reports'] += len(reps)
             viol.append(dict(kind='crash', what='concurrent run of a script whose serial run is fine %s (exit %d): %s' % (
                 'hung' if r.returncode == -9 else 'crashed', r.returncode, (reps[0].split('\n')[0] if reps else r.stderr[-300:])),
-                report=(reps[0][:2500] if reps else r.stderr[-2500:]), lines=lines, seed=sd, label=label))
+                report=(reps[0][:2500] if reps else r.stderr[-2500:]), classes=classes_of(reps), lines=lines, seed=sd, label=label, kissel=kis))
             return
         if r.returncode not in (0, 66) or s.returncode != 0:
             rep['tie_broken'].append('%s: thread harness exited %d / serial %d: %s' % (label, r.returncode, s.returncode, (r.stderr + s.stderr)[-300:]))
             return
         if reps:
+            # EVERY report is classified (kind, the two code locations, the object), not only the first: the replay names each class once
             stats['tsan_reports'] += len(reps)
-            viol.append(dict(kind='race', what='ThreadSanitizer: ' + reps[0].split('\n')[0], report=reps[0][:2500], lines=lines, seed=sd, label=label))
+            cl = classes_of(reps); first = {}
+            for x in reps: first.setdefault(report_class(x), x)
+            viol.append(dict(kind='race', what='ThreadSanitizer: %d report(s) in %d class(es): %s' % (len(reps), len(cl), '; '.join('%s (x%d)' % kv for kv in sorted(cl.items()))[:900]),
+                             report='\n'.join(v_[:1800] for v_ in list(first.values())[:4]), classes=cl, lines=lines, seed=sd, label=label, kissel=kis))
+        arr = [l for l in r.stdout.splitlines() if l.startswith('A shared-array')]
+        if len(arr) != 2 or arr[0] != arr[1] or arr[0].split()[2] in ('-1', '0'):
+            viol.append(dict(kind='shared-array', what='the shared user crystal array was modified while the threads were only reading it (or could not be built): %s' % arr, lines=lines, seed=sd, label=label, kissel=kis))
         if r.stdout != s.stdout:
             a = r.stdout.splitlines(); b = s.stdout.splitlines()
             d = [(x, y) for x, y in zip(a, b) if x != y]
             stats['serial_mismatches'] += len(d) or 1
-            viol.append(dict(kind='serial', what='a call returned something else than in the serial run: %s | serial: %s' % (d[0] if d else ('(length)', '')), lines=lines, seed=sd, label=label))
+            viol.append(dict(kind='serial', what='a call returned something else than in the serial run: %s | serial: %s' % (d[0] if d else ('(length)', '')), lines=lines, seed=sd, label=label, kissel=kis))
         else:
             byt = {}
             for l in lines:
                 t_, o_ = l.split(' ', 1); byt.setdefault(int(t_), []).append(o_)
             for ol in r.stdout.splitlines():
                 m = re.match(r'T (\d+) (\d+) (.*)', ol)
-                if m and not re.search(r' e:\d|:~|bad-op|unparsed|noerr', m.group(3)): ok_texts.add(byt[int(m.group(1))][int(m.group(2))])
-            if not samples: samples.append(dict(script_line=lines[0], result=r.stdout.splitlines()[0][:160]))
+                if m and not ERR_RE.search(m.group(3)): okset.add(byt[int(m.group(1))][int(m.group(2))])
+            if not samples: samples.append(dict(script_line=lines[0], result=[l for l in r.stdout.splitlines() if l.startswith('T ')][0][:160]))
+        stats['shared_array_reads'] += sum(1 for l in lines if ' $' in l or ' Shared' in l)
 
     if replay:
         txt = open(replay).read()
         m = re.search(r'^#seed (\d+)', txt, flags=re.M); sd = int(m.group(1)) if m else 0
         lines = [l for l in txt.splitlines() if l and not l.startswith('#')]
         if re.search(r'^#mode locale', txt, flags=re.M): lines = []
+        rexe = exeR if (exeR is not None and re.search(r'^#config kissel', txt, flags=re.M)) else exe
         for k in range(5):
-            if lines: one_round(lines, sd + k, 'replay')
+            if lines: one_round(lines, sd + k, 'replay', exe=rexe)
             if viol: break
     else:
         plan = [(8, 220), (16, 160), (12, 200), (16, 120), (8, 300), (10, 200), (16, 200), (14, 150)] if ctx.tier == 'quick' else [(8, 600), (16, 450), (12, 500), (10, 450), (16, 700)] * 40
@@ -157,16 +267,66 @@ def _run(ctx, replay):
                 txt = open(os.path.join(cdir, fn)).read()
                 one_round([l for l in txt.splitlines() if l and not l.startswith('#')], 1, 'corpus ' + fn)
         for i, (nt, nops) in enumerate(plan):
-            one_round(make_script(ctx.rng, meta, nt, nops), ctx.rng.getrandbits(31), 'round %d (%d threads)' % (i, nt))
+            one_round(make_script(ctx.rng, meta, nt, nops, files=good_files + ['xv_bad.dat']), ctx.rng.getrandbits(31), 'round %d (%d threads)' % (i, nt))
+        # every thread only READS the one shared user array (lookups that copy, lists, the numeric functions on the entries themselves)
+        for i, (nt, nops) in enumerate([(16, 250), (8, 400)] if ctx.tier == 'quick' else [(16, 500), (8, 800), (12, 600)] * 6):
+            one_round(make_script(ctx.rng, meta, nt, nops, mode='shared'), ctx.rng.getrandbits(31), 'shared-array round %d (%d threads reading one user Crystal_Array)' % (i, nt))
+            stats['shared_array_rounds'] += 1
+        # the regenerated Kissel configuration: the Kissel / cascade family on its success path, concurrently
+        if exeR is not None:
+            from props import c16 as C16
+            good = C16.kissel_good_ops(meta, fam)
+            for i, (nt, nops) in enumerate([(16, 160), (8, 300), (12, 200)] if ctx.tier == 'quick' else [(16, 450), (8, 700), (12, 500), (10, 500)] * 8):
+                one_round(make_script(ctx.rng, meta, nt, nops, only=famg, files=good_files, mode='kissel', extra=good), ctx.rng.getrandbits(31),
+                          'Kissel round %d (%d threads, regenerated kissel_pe.dat)' % (i, nt), exe=exeR, okset=ok_kissel)
+                stats['kissel_rounds'] += 1
+            ksucc = {f: 0 for f in famg}
+            for o in ok_kissel:
+                if opname(o) in ksucc: ksucc[opname(o)] += 1
+            stats['kissel'] = dict(family=len(fam), distinct_succeeding_calls=sum(ksucc.values()), succeeded_per_function=ksucc)
+            never = sorted(f for f, n_ in ksucc.items() if n_ == 0)
+            if never and not viol:
+                rep['tie_broken'].append('regenerated-Kissel configuration: %d Kissel/cascade functions never succeeded concurrently (%s): their success path was not exercised' % (len(never), ', '.join(never[:12])))
         if explain:       # the footprint / MT-safety theorem is broken: concentrate 16 threads on the offending entries
             ents = [e for e in sorted(set(x['entry'] for x in explain)) if e in xrlops.generic_functions(meta)]
             for k in range(8):
                 if not ents or any(v['kind'] == 'race' for v in viol): break
                 one_round(make_script(ctx.rng, meta, 16, 300, only=ents), ctx.rng.getrandbits(31), 'targeted round %d (%s)' % (k, ','.join(ents[:4])))
+                if exeR is not None and any(e_ in fam for e_ in ents):
+                    one_round(make_script(ctx.rng, meta, 16, 200, only=[e_ for e_ in ents if e_ in fam], mode='kissel', extra=C16.kissel_good_ops(meta, [e_ for e_ in ents if e_ in fam])),
+                              ctx.rng.getrandbits(31), 'targeted Kissel round %d' % k, exe=exeR, okset=ok_kissel)
+        # ---- canary: the documented exception.  Two threads insert into the built-in array without a lock: ThreadSanitizer MUST report
+        # a race on Crystal_arr.  If it stays silent the detector is not live (mis-built harness, suppressed reports) and nothing above
+        # means anything.  (Until now liveness was only shown by the known setlocale finding, which a repair would remove.)
+        canary = ['%d AddBuiltin @%s Canary%d_%d E' % (t_, ['Si', 'Ge'][t_], t_, k_) for k_ in range(3) for t_ in range(2)]
+        cpath = ctx.sc.path('canary.txt')
+        with open(cpath, 'w') as f: f.write('\n'.join(canary) + '\n')
+        for k in range(4):
+            c_ = runh([exe, 'run', cpath, str(k + 1), shared_file], dict(env, LC_ALL='C'), tmo=120)
+            creps = [x for x in tsan_reports(c_.stderr) if 'Crystal_AddCrystal' in x]
+            stats['canary_runs'] = k + 1; stats['canary_reports'] = len(creps)
+            if creps:
+                stats['canary_class'] = report_class(creps[0]); break
+        if not stats.get('canary_reports'):
+            sr = runh([exe, 'selfrace'], dict(env, LC_ALL='C'), tmo=60)
+            stats['canary_selfrace_reports'] = len(tsan_reports(sr.stderr))
+            rep['tie_broken'].append(('ThreadSanitizer does report an unsynchronised counter of the harness itself, so either the library objects are not instrumented or '
+                                      'Crystal_AddCrystal synchronises internally now (then the documented exemption and this canary are obsolete); ' if stats['canary_selfrace_reports'] else '') +'detector not live: two threads inserting into the built-in crystal array without a lock (documented as unsafe) produced no ThreadSanitizer report in %d runs (exit %s): silence of the other rounds proves nothing' % (stats['canary_runs'], c_.returncode))
+    # ---- "as documented": the header's note for multithreaded programs -------------------------------------------------------------
+    note = header_note(cbuild.REPO)
+    stats['header_note'] = {k: v for k, v in note.items() if k != 'text'}
+    if not replay:
+        if not note['present'] or not note.get('says_not_thread_safe') or not note.get('says_locking'):
+            rep['problems'].append('include/xraylib-crystal-diffraction.h no longer carries the note for multithreaded programs (crystal-array mutators need locking): the exemption of C17 is "as documented"')
+        elif note['stale']:
+            ctx.notes.append('OBSERVATION (documentation): the threading note of include/xraylib-crystal-diffraction.h names %s, which no header declares; the functions that modify '
+                             'a crystal array today are %s.  The note still says what the property needs (adding to the built-in array is not thread safe, use a lock), '
+                             'but by obsolete names' % (note['stale'], sorted(n for n, c in meta['classes'].items() if c == 'mutator')))
+            log('OBSERVATION property=%s header threading note names functions that do not exist: %s' % (ID, note['stale']))
     stats['distinct_ops'] = len(all_ops)
 
     # ---- DESIGN §3 C17: try to EXHIBIT the setlocale race -----------------------------------------------
-    locale_finding = None
+    locale_finding = None; sl_lines = setlocale_lines(cbuild.REPO)
     if not replay or re.search(r'^#mode locale', open(replay).read(), flags=re.M):
         for k in range(3 if ctx.tier == 'quick' else 10):
             p = runh([exe, 'locale', '16', '150', 'Ca5(PO4)3F'], env)
@@ -178,10 +338,19 @@ def _run(ctx, replay):
             ch = int(m.group(2)) if m else 0
             if reps: stats['locale_tsan'] += 1
             if ch: stats['locale_changed'] += 1
-            if (reps or ch) and locale_finding is None:
-                in_parser = bool(reps) and 'setlocale' in reps[0] and 'CompoundParser' in reps[0]
-                locale_finding = dict(kind='locale', what=('ThreadSanitizer: %s; ' % reps[0].split('\n')[0] if reps else '') + 'application thread saw LC_NUMERIC change in %d of %s queries (final %s)' % (ch, m.group(1) if m else '?', m.group(3) if m else '?'),
-                                      report=(reps[0][:2500] if reps else ''), key=KEY_LOCALE if (in_parser or (ch and not reps)) else None)
+            # EVERY report of the run is classified: the known race is "inside a setlocale call made by CompoundParser vs the application's
+            # read of the locale name / another parser thread's setlocale"; anything else in the same run is a different race, reported as such
+            kn = [x for x in reps if locale_report_known(x, sl_lines)]; other = [x for x in reps if not locale_report_known(x, sl_lines)]
+            stats['locale_reports'] += len(reps); stats['locale_reports_other'] += len(other)
+            stats.setdefault('locale_report_classes', {})
+            for x in reps:
+                c_ = report_class(x); stats['locale_report_classes'][c_] = stats['locale_report_classes'].get(c_, 0) + 1
+            if other and not any(v['kind'] == 'locale-other' for v in viol):
+                viol.append(dict(kind='locale-other', what='ThreadSanitizer, during the setlocale experiment, reports a race that is NOT the known one (not inside a setlocale call of CompoundParser): %s' % report_class(other[0]),
+                                 report=other[0][:2500], key=None))
+            if (kn or ch) and locale_finding is None:
+                locale_finding = dict(kind='locale', what=('ThreadSanitizer: %s; ' % report_class(kn[0]) if kn else '') + 'application thread saw LC_NUMERIC change in %d of %s queries (final %s)' % (ch, m.group(1) if m else '?', m.group(3) if m else '?'),
+                                      report=(kn[0][:2500] if kn else ''), key=KEY_LOCALE)
         if locale_finding:
             hit = [k for k in known if k[0] == locale_finding.get('key')]
             if uses_setlocale == 'false':
@@ -200,8 +369,10 @@ def _run(ctx, replay):
         v = viol[0]
         body = '# violation of %s on the real library under ThreadSanitizer (harness/c17_threads.c)\n# %s\n# %s\n' % (ID, v['what'], v.get('label', ''))
         if v.get('report'): body += '# ' + v['report'].replace('\n', '\n# ') + '\n'
-        if v['kind'] == 'locale': body += '#mode locale\n# replay: c17_threads locale 16 150 Ca5(PO4)3F  (LC_NUMERIC=C.utf8 held by one application thread)\n'
-        else: body += '#seed %d\n' % v['seed'] + '\n'.join(v['lines']) + '\n'
+        if v.get('classes'): body += ''.join('# report class (x%d): %s\n' % (n_, c_) for c_, n_ in sorted(v['classes'].items()))
+        for v2 in viol[1:4]: body += '# also: %s (%s)\n' % (v2['what'][:400], v2.get('label', ''))
+        if v['kind'] in ('locale', 'locale-other'): body += '#mode locale\n# replay: c17_threads locale 16 150 Ca5(PO4)3F  (LC_NUMERIC=C.utf8 held by one application thread)\n'
+        else: body += ('#config kissel   (tables of the regenerated Kissel configuration: tools/regen_kissel.py)\n' if v.get('kissel') else '') + '#seed %d\n' % v['seed'] + '\n'.join(v['lines']) + '\n'
         for x in explain[:20]: body += '# footprint: entry %s reaches %s (%s): writes %s, external calls outside the MT-Safe list %s\n' % (x['entry'], x['function'], x['file'], x['writes'], x['exts'])
         if broken: body += '# broken obligations: %s\n' % json.dumps(dict(proof=rep['proof_broken'], tie=rep['tie_broken'], other=rep['problems']))[:3000]
         path = core.write_replay(ctx, body)
@@ -221,11 +392,15 @@ def _run(ctx, replay):
                checker_cmd='cd lean-sched && lake build %s  (then `#print axioms` on each theorem; thorough: leanchecker)' % MODULE,
                trusted_base=sl.TRUSTED_BASE + ['ThreadSanitizer (clang-14) as the observer of the tie: it sees the library and the harness, not the inside of libc'],
                theorems=[dict(name=th, axioms=axioms.get(th)) for th in theorems],
-               traces_validated_against_impl=stats['calls'], evaluations=stats['calls'] + stats['locale_runs'], distinct_nontrivial=len(ok_texts), distinct_calls=stats['distinct_ops'],
+               traces_validated_against_impl=stats['calls'], evaluations=stats['calls'] + stats['locale_runs'], distinct_nontrivial=len(ok_texts) + len(ok_kissel), distinct_calls=stats['distinct_ops'],
+               distinct_nontrivial_shipped_tables=len(ok_texts), distinct_nontrivial_regenerated_kissel=len(ok_kissel),
                rule='seeded scripts for 8-16 threads over every thread-safe entry point (tools/xrlops.py; failing calls that allocate error objects, _CP functions that '
                     'parse and free, crystal lookups that copy, catalogue lookups, error API), executed concurrently under ThreadSanitizer and serially; per-thread result '
-                    'vectors must be identical and TSan silent.  distinct_nontrivial = distinct call texts (function + arguments) executed concurrently that agreed with the serial run and produced a value/object rather than an error.  Separately: the setlocale search (16 parser threads '
-                    'vs one application thread holding LC_NUMERIC=C.utf8)',
+                    'vectors must be identical and TSan silent.  distinct_nontrivial = distinct call texts (function + arguments) executed concurrently that agreed with the serial run and produced a value/object rather than an error, '
+                    'summed over the two data configurations (tables as shipped: the Kissel/cascade family can only fail; kissel_pe.dat regenerated from data/kissel: thread_stats.kissel.succeeded_per_function).  '
+                    'In every round all threads also read ONE user Crystal_Array built by the main thread (lookups, lists, numeric functions on the entries themselves, uncopied), and there are rounds of only that; '
+                    'the array must be bit-identical afterwards.  Canary: two threads inserting into the built-in array without a lock must produce a TSan report, else the check fails (detector not live).  '
+                    'Separately: the setlocale search (16 parser threads vs one application thread holding LC_NUMERIC=C.utf8), every one of whose reports is classified',
                samples=samples + [dict(finding=f['what'], key=k[0]) for f, k in rep['known']] + [dict(violation=v['what']) for v in viol[:2]],
                thread_stats=stats, lean_verdicts=ev, public_functions_exercised=len(ex),
                not_exercised=sorted(set(n for n, c in meta['classes'].items() if c != 'mutator') - ex),
